@@ -249,6 +249,29 @@ def generator_checks(tier, seed):
     yield ("hmc:chain-count-independence:explicit-momenta",
            None if b3["exception"] is None and b2.get("pos_rows") == b3.get("pos_rows", [])[:2] else
            "real HMC chain outputs depend on how many other chains are run even with caller-supplied initial momenta")
+    # a stream is never replayed: every momentum drawn during a run (initial momenta of array initial states
+    # included) is a fresh draw, so no two of them coincide
+    for bg in ("PCG64", "MT19937", "SFC64"):
+        r = E.hmc_run(adapters=(), n_warm=2, n_main=3, nchain=3, n_process=1, bitgen=bg, record_draws=True)
+        dr = [tuple(d) for d in r["draws"]]
+        yield (f"hmc:momentum-draws-distinct:{bg}",
+               None if r["exception"] is None and len(dr) >= 3 * 5 and len(set(dr)) == len(dr) else
+               f"real HMC ({bg}, array initial states, 3 chains): {len(dr) - len(set(dr))} of {len(dr)} momentum draws repeat an earlier "
+               f"draw of the run -- a random stream was replayed ({r['exception']})")
+    for bg in ("SFC64", "Philox", "MT19937"):
+        c3 = E.hmc_run(adapters=(), n_warm=3, n_main=3, nchain=3, n_process=1, trace_warm_up=True, explicit_mom=True, bitgen=bg)
+        c2 = E.hmc_run(adapters=(), n_warm=3, n_main=3, nchain=2, n_process=1, trace_warm_up=True, explicit_mom=True, bitgen=bg)
+        yield (f"hmc:chain-count-independence:explicit-momenta:{bg}",
+               None if c3["exception"] is None and c2.get("pos_rows") == c3.get("pos_rows", [])[:2] else
+               f"real HMC ({bg}) chain outputs depend on how many other chains are run even with caller-supplied initial momenta")
+    # whole generator state (buffered words included) carried across stages and processes
+    for bg, smp, nw in (("Philox", "static", 5), ("PCG64", "random", 5), ("PCG64", "random", 4), ("SFC64", "random", 3)):
+        q1 = E.hmc_run(sampler=smp, adapters=("dual",), n_warm=nw, n_main=4, nchain=2, n_process=1, bitgen=bg, explicit_mom=True)
+        q2 = E.hmc_run(sampler=smp, adapters=("dual",), n_warm=nw, n_main=4, nchain=2, n_process=2, bitgen=bg, explicit_mom=True)
+        yield (f"hmc:sequential-vs-parallel:{bg}:{smp}:{nw}",
+               None if q1["exception"] is None and q1.get("pos_rows") == q2.get("pos_rows") else
+               f"real {smp} HMC ({bg}, {nw} warm-up + 4 main iterations) differs between n_process=1 and n_process=2 "
+               f"({q1['exception']}, {q2['exception']})")
     ad1 = E.hmc_run(adapters=("dual",), n_warm=6, n_main=3, nchain=2, n_process=1)
     ad2 = E.hmc_run(adapters=("dual",), n_warm=6, n_main=3, nchain=2, n_process=2)
     yield ("hmc:adaptive-sequential-vs-parallel",
